@@ -14,6 +14,7 @@ HedString) and a hand-written table of schema paths; the algebraic laws are rela
 three group forms [A && B], {A && B}, {A && B:} (term-level A, B) use the wording of the QueryHandler docstring.
 
 Known defects on the unchanged tree (own narrow labels, everything next to them is checked by passing clauses):
+  C15.group.exo.required_part_fills_whole_string         '{{red}: red}' misses '(Red, (Red))' (found with an extra top-level tag)
   C15.parse.unbalanced_rejected.closer_as_operand        ')'   compiles (closing symbol consumed as a search term)
   C15.parse.unbalanced_rejected.double_square_as_term    '[['  compiles (legacy token lexed as a term)
   C15.parse.wellformed_compiles.double_square_token      '[[Red]]' is rejected although '[ [Red] ]' compiles
@@ -25,6 +26,7 @@ import random
 from functools import lru_cache
 
 from rt.common import Workload, main, schema
+from rt import c15_exact as X
 
 # ------------------------------------------------------------------------------------------------ tag table
 _VIS = "Property/Sensory-property/Sensory-attribute/Visual-attribute/Color"
@@ -670,6 +672,82 @@ def _snap_diff(s0, s1):
     return {"before_len": len(s0), "after_len": len(s1)}
 
 
+# ------------------------------------------------------------------------------------------------ exact-group part
+L_EXO = "C15.group.exo"
+L_EXO_REL = "C15.group.exo_equals_ex0_when_optional_is_no_member"
+# narrow label of a finding on the unchanged tree (predicate on the input only): the required part X of {X: Y} is matched by
+# ALL top-level members of the annotation (the whole string looks like a group that X fills), while a real group matches
+# only together with the optional part
+L_EXO_TOP = "C15.group.exo.required_part_fills_whole_string"
+_GX = {}
+
+
+def _init_exact(seed, quick):
+    rng = random.Random(seed * 104729 + 15)
+    trees = X.annotations(rng, quick)
+    qs = X.queries(quick)
+    texts = [X.q_render(q) for q, _ in qs]
+    handlers = [compile_query(t) for t in texts]
+    ex0_of = {}
+    for i, (q, form) in enumerate(qs):
+        if form == "ex0":
+            ex0_of[q[1]] = i
+    _GX.update(trees=trees, qs=qs, texts=texts, handlers=handlers, ex0_of=ex0_of)
+
+
+def _exact_label(form, q=None, tree=None, exp=None):
+    if form != "exo":
+        return "C15.group." + form
+    if exp and tree is not None and any(m == frozenset(range(len(tree))) for m in X.members(q[1], tree)):
+        return L_EXO_TOP
+    return L_EXO
+
+
+def _exact_work(chunk):
+    lo, hi = chunk
+    trees, qs, texts, handlers, ex0_of = (_GX[k] for k in ("trees", "qs", "texts", "handlers", "ex0_of"))
+    fails = []
+    n = n_rel = n_true = 0
+    per_form = {}
+    for ti in range(lo, hi):
+        tree = trees[ti]
+        atext = X.render(tree)
+        hs = parse_annotation(atext)
+        got = []
+        for qi, (h, outcome) in enumerate(handlers):
+            if h is None:
+                got.append(None)
+                continue
+            try:
+                got.append(bool(h.search(hs)))
+            except BaseException as e:  # noqa
+                got.append(None)
+                fails.append(("C15.search.completes", {"annotation": atext, "query": texts[qi]},
+                              type(e).__name__ + ": " + str(e)[:120], "a result"))
+        for qi, (q, form) in enumerate(qs):
+            if got[qi] is None:
+                continue
+            exp = X.expected(q, tree)
+            n += 1
+            n_true += exp
+            key = (form, exp)
+            per_form[key] = per_form.get(key, 0) + 1
+            if got[qi] != exp:
+                fails.append((_exact_label(form, q, tree, exp), {"annotation": atext, "query": texts[qi], "form": form, "exact_ast": q},
+                              got[qi], exp))
+            if form == "exo" and X.optional_never_a_member(q, tree):
+                j = ex0_of[q[1]]
+                if got[j] is not None:
+                    n_rel += 1
+                    if got[qi] != got[j]:
+                        fails.append((L_EXO_REL, {"annotation": atext, "query": texts[qi], "query2": texts[j], "exact_ast": q},
+                                      {texts[qi]: got[qi], texts[j]: got[j]},
+                                      "equal: no group has the optional part among the members next to the required part"))
+        if len(fails) > 400:
+            fails = _thin(fails)
+    return {"fails": _thin(fails), "n": n, "n_rel": n_rel, "n_true": n_true, "per_form": per_form}
+
+
 # ------------------------------------------------------------------------------------------------ parse part
 TOKENS = ["a", '"a"', "a*", "?", "??", "???", "&&", "||", "~", "(", ")", "[", "]", "{", "}", ":", ","]
 TOKENS_SMALL = ["a", "&&", "~", "(", ")", "[", "]", "{", "}", ":"]
@@ -776,7 +854,10 @@ def run(w: Workload):
               "ordered pairs of 15 atoms, atom triples and sampled sub-queries of depth <=2 (thorough <=3); an annotation "
               "is non-trivial if some query matches and some does not, a query if it matches some annotation and not "
               "another.  parse: every token sequence up to length 4 (thorough 5; 7 over a 10-token alphabet), random "
-              "character garbage, bracket mutations of well-formed queries.")
+              "character garbage, bracket mutations of well-formed queries.  exact groups: every ordered forest with <= 4 "
+              "(thorough 5) nodes inside one outer group x labelings over 3 tags (+ one unmatched tag) x the forms {X} {X:} {X: Y} [X] over "
+              "term-level X, Y (conjunctions, disjunctions, wildcards, member groups), judged by an independent evaluator "
+              "over nested tuples: a tag nested deeper inside a sub-group is not a member of the group.")
     schema()
     _check_table(w)
     _init_plan(w.seed, w.quick)
@@ -815,8 +896,16 @@ def run(w: Workload):
     for k in range(ngarb):
         jobs.append(("garbage", (w.seed * 1000 + k, 3000 if w.quick else 10000)))
 
+    _init_exact(w.seed, w.quick)
+    for t, (h, o) in zip(_GX["texts"], _GX["handlers"]):
+        if o != "ok":
+            w.fail("C15.parse.wellformed_compiles", {"text": t}, o, "compiles")
+    xstep = 8 if w.quick else 16
+    xchunks = [(i, min(i + xstep, len(_GX["trees"]))) for i in range(0, len(_GX["trees"]), xstep)]
+
     with _pool() as pool:
         search_results = pool.map(_work, chunks, chunksize=1)
+        exact_results = pool.map(_exact_work, xchunks, chunksize=1)
         parse_results = pool.map(_parse_work, jobs, chunksize=1)
 
     # ---- collect search part
@@ -843,6 +932,30 @@ def run(w: Workload):
                  f"with the distinct-tag oracle (+{len(plan.union)} with an Or-ed operand), {len(plan.group1) + len(plan.group2)} "
                  f"documented group forms; each search run twice{' on every other annotation' if w.quick else ''}",
            exhaustive=False, annotations=len(trees), queries=nq)
+
+    # ---- collect exact-group part
+    nx = nrel = ntrue = 0
+    per_form = {}
+    for r in exact_results:
+        for f in r["fails"]:
+            w.fail(f[0], f[1], f[2], f[3])
+        nx += r["n"]
+        nrel += r["n_rel"]
+        ntrue += r["n_true"]
+        for k, v in r["per_form"].items():
+            per_form[k] = per_form.get(k, 0) + v
+    w.evaluations += nx
+    w.distinct.add(("exact-groups", nx))
+    w.part("exact-group forms, required / optional terms at different depths", cases=nx,
+           bound=f"{len(_GX['trees'])} annotations = every ordered forest with <= {4 if w.quick else 5} nodes (nesting <= 3) inside one outer group "
+                 f"(and without it{' up to 3 nodes' if w.quick else ''}), all labelings over Red/Blue/Event, labelings with the "
+                 f"unmatched tag Item {'sampled' if w.quick else 'all up to 3 leaves, sampled above'}; x {len(_GX['texts'])} queries "
+                 "{X} {X:} {X: Y} [X] with X in {t, t && u, t && t, 't, u', t || u, color, {t}, 't, {u}', t && ???, '??, t'} and Y in {t, t && u, "
+                 "t || u, ?, ??, ???, color, {t}} over the terms red/blue/event; expected by an independent evaluator over nested "
+                 f"tuples (rt/c15_exact.py); expected-true cases: {ntrue}; per form (form, expected): "
+                 f"{ {k[0] + ('+' if k[1] else '-'): v for k, v in sorted(per_form.items())} }; relation "
+                 f"'{{X: Y}} == {{X:}} when Y is nowhere a member next to X' evaluated on {nrel} cases",
+           exhaustive=False)
 
     # ---- collect parse part
     n = unb = rej = 0
@@ -878,6 +991,10 @@ def run(w: Workload):
     w.assumptions.append("oracle of the clauses C15.group.* = the QueryHandler docstring ('[..] a group that contains both at any "
                          "level', '{..} at the same level', '{..:} and nothing else'), '&&' via distinct tags; the top-level "
                          "string is not a group")
+    w.assumptions.append("oracle of C15.group.exo (and of ex/ex0/desc in the exact-group part) = the docstring reading written out "
+                         "in rt/c15_exact.py: members are direct children; '{X: Y}' = X's match alone, or together with a disjoint "
+                         "match of Y, is ALL members of the group; a '{..}' operand is a member sub-group; '?', '??', '???' one "
+                         "member (any / tag / group)")
     w.assumptions.append("hand-written schema paths of the 8 tags used (checked against schema 8.3.0 entries at start)")
     w.assumptions.append("HedString parsing of the generated text yields the generated tree (leaf order checked)")
     w.not_covered.append("annotations with more than 5 nodes or nesting deeper than 4; tags outside the 10 spellings used")
@@ -958,6 +1075,16 @@ def replay(w: Workload, case: dict):
         exp = any(term_matches(inp["mode"], inp["term"], lab) for lab in tree_labels)
         obs = search_bool(inp["query"], a)
         w.check(obs == exp, clause, inp, obs, exp)
+    elif "exact_ast" in inp:
+        q = X.to_tuple(inp["exact_ast"])
+        tree = X.parse_tree_text(a)
+        obs = search_bool(inp["query"], a)
+        if clause == L_EXO_REL:
+            obs2 = search_bool(inp["query2"], a)
+            w.check(not X.optional_never_a_member(q, tree) or obs == obs2, clause, inp, {"first": obs, "second": obs2}, "equal")
+        else:
+            exp = X.expected(q, tree)
+            w.check(obs == exp, clause, inp, obs, exp)
     elif clause.startswith("C15.group."):
         tree = parse_tree_text(a)
         labs = leaves(tree)
